@@ -487,7 +487,7 @@ func opGovParams(w *World) *Op {
 		params.SlashMeterReplenishFraction = []string{"0.001", "0.05", "0.34", "1.0"}[w.Rnd.Intn(4)]
 		what = "slashfrac=" + params.SlashMeterReplenishFraction
 	default:
-		params.NumberOfEpochsToStartReceivingRewards = int64(w.Rnd.Intn(4))
+		params.NumberOfEpochsToStartReceivingRewards = int64(1 + w.Rnd.Intn(4))
 		what = fmt.Sprintf("rewardepochs=%d", params.NumberOfEpochsToStartReceivingRewards)
 	}
 	w.Op("gov: provider params %s", what)
